@@ -1,6 +1,6 @@
 (* C07: proofs.  Definitions of the joint system and of the control abstraction are in C07Abs.v, the
    complete check of the finite control space (vm_compute) in C07Check0/1/2.v. *)
-From PB Require Import C07Abs C07Check0 C07Check1 C07Check2 C09Proofs DpStepProofs.
+From PB Require Import C07Abs C07Joint C07Check0 C07Check1 C07Check2 C09Proofs DpStepProofs.
 
 (* ================================================================== A. the abstract system *)
 
@@ -368,4 +368,678 @@ Proof.
       rewrite Hex.
       destruct Hres as [G|[S C]]; [left; exact G|].
       specialize (Hs S). unfold suspectb in Hs. simpl in Hs. rewrite andb_false_r in Hs. discriminate.
+Qed.
+
+(* ================================================================== B. the reference slave *)
+
+(* C07_slave_retry_detection: a request with FCV=1 and the stored bit is answered with the stored response and
+   changes nothing; every other request (FCV=0/FCB=1 in particular) is processed and its response and bit stored *)
+Lemma slave_step_request s h pdu f rq :
+  sl_silent s = false -> wf_header h -> (length_byte h (length pdu) <= 249)%nat ->
+  h_fc h = FcRequest f rq -> (rq = RqSrdLow \/ rq = RqSrdHigh) -> h_da h = sl_addr s ->
+  slave_step s (frame_spec h pdu) =
+    if fresh f (sl_fcb s)
+    then let (s1, resp) := slave_process s h pdu in (slave_store s1 (stored f) resp, resp)
+    else (s, sl_resp s).
+Proof.
+  intros Hs Hwf Hlen Hfc Hrq Hda. unfold slave_step. rewrite Hs.
+  rewrite <- (app_nil_r (frame_spec h pdu)) at 1. rewrite (decode_data_frame h pdu [] Hwf Hlen).
+  rewrite frame_spec_length, Nat.eqb_refl. cbn [negb]. rewrite Hfc, Hda, Z.eqb_refl, orb_true_r. cbn [negb].
+  unfold fresh, stored.
+  destruct Hrq as [-> | ->]; destruct f; cbn [fcbit_fcv fcbit_fcb negb orb];
+    destruct (sl_fcb s) as [[|]|]; cbn [Bool.eqb negb]; try reflexivity;
+    destruct (slave_process s h pdu); reflexivity.
+Qed.
+
+Lemma deliver_data own da h pdu rl st :
+  wf_header h -> (length_byte h (length pdu) <= 249)%nat ->
+  h_sa h = da -> h_da h = own -> h_fc h = FcResponse rl st ->
+  deliver own da (Some (frame_spec h pdu)) = Some (TData h pdu).
+Proof.
+  intros Hwf Hlen Hsa Hda Hfc. unfold deliver.
+  rewrite <- (app_nil_r (frame_spec h pdu)) at 1. rewrite (decode_data_frame h pdu [] Hwf Hlen).
+  rewrite frame_spec_length, Nat.eqb_refl. unfold admissible. rewrite Hsa, Hda, Hfc, !Z.eqb_refl. reflexivity.
+Qed.
+
+Lemma deliver_sc own da : deliver own da (Some encode_sc) = Some TShortConf.
+Proof.
+  unfold deliver. rewrite <- (app_nil_r encode_sc). rewrite decode_sc_frame. reflexivity.
+Qed.
+
+(* whatever is delivered is admissible *)
+Lemma deliver_admissible own da r t : deliver own da r = Some t -> admissible own da t = true.
+Proof.
+  unfold deliver. destruct r as [w|]; [|discriminate].
+  destruct (decode w) as [[| |t' n]| |]; try discriminate.
+  destruct (Nat.eqb n (length w)); [|discriminate]. cbn [andb].
+  destruct (admissible own da t') eqn:Ha; [|discriminate]. intro H. inversion H. subst. exact Ha.
+Qed.
+
+(* the diagnostics flags of a slave that is not forced to lie *)
+Definition sdiag_flags (nr cf e pf wp sd wd fr sy : bool) : Z :=
+  flags_remove (Z.lor (bit nr 2 + bit cf 4 + bit e 8 + bit pf 64) 0 +
+                256 * Z.lor (bit wp 1 + bit sd 2 + 4 + bit wd 8 + bit fr 16 + bit sy 32) 0) DF_PERMANENT_BIT.
+
+Lemma sdiag_flags_spec nr cf e pf wp sd wd fr sy :
+  flags_contains (sdiag_flags nr cf e pf wp sd wd fr sy) DF_PARAMETER_FAULT = pf /\
+  flags_contains (sdiag_flags nr cf e pf wp sd wd fr sy) DF_CONFIGURATION_FAULT = cf /\
+  flags_contains (sdiag_flags nr cf e pf wp sd wd fr sy) DF_PARAMETER_REQUIRED = wp /\
+  flags_contains (sdiag_flags nr cf e pf wp sd wd fr sy) DF_STATION_NOT_READY = nr.
+Proof. destruct nr, cf, e, pf, wp, sd, wd, fr, sy; vm_compute; repeat split; reflexivity. Qed.
+
+(* ================================================================== C. the peripheral's reply handler *)
+
+Definition pflags (pdu : bytes) : Z := flags_remove (nth 0 pdu 0 + 256 * nth 1 pdu 0) DF_PERMANENT_BIT.
+
+Lemma cyc_ok f : f <> FcbInactive -> fcb_cycle f = Ok (cyc f).
+Proof. destruct f; intro H; try reflexivity. now elim H. Qed.
+
+Lemma handle_diag_spec p h pdu : pe_fcb p <> FcbInactive ->
+  (dg_class h pdu = DgNone -> p_handle_diag p (TData h pdu) = Ok (p, None)) /\
+  (dg_class h pdu <> DgNone ->
+     exists d x, p_handle_diag p (TData h pdu) = Ok (set_diag (set_fcb p (cyc (pe_fcb p))) (Some d) x, Some d) /\
+                 d_flags d = pflags pdu).
+Proof.
+  intro Hf. unfold dg_class, p_handle_diag.
+  destruct (opt_eqb (h_dsap h) dp_diag_reply_dsap); cbn [negb andb]; [|split; [reflexivity|intro H; now elim H]].
+  destruct (opt_eqb (h_ssap h) dp_diag_reply_ssap); cbn [negb andb]; [|split; [reflexivity|intro H; now elim H]].
+  destruct (Nat.leb_spec dp_diag_min_len (length pdu)) as [Hl|Hl].
+  - replace (Nat.ltb (length pdu) dp_diag_min_len) with false by (symmetry; apply Nat.ltb_ge; exact Hl).
+    split.
+    + intro H. exfalso.
+      destruct (flags_contains _ DF_PARAMETER_FAULT || flags_contains _ DF_CONFIGURATION_FAULT);
+      destruct (flags_contains _ DF_PARAMETER_REQUIRED); try discriminate;
+      destruct (flags_contains _ DF_STATION_NOT_READY); discriminate.
+    + intros _.
+      destruct pdu as [|b0 [|b1 [|b2 [|b3 [|b4 [|b5 tl]]]]]]; try (unfold dp_diag_min_len in Hl; simpl in Hl; lia).
+      unfold get, dp_diag_master_pos. cbn [nth_error bind nth].
+      destruct (flags_contains _ DF_EXT_DIAG).
+      * unfold slice_from. cbn [length Nat.leb bind skipn]. rewrite (cyc_ok _ Hf). cbn [bind].
+        eexists; eexists; split; [reflexivity|]. reflexivity.
+      * cbn [bind]. rewrite (cyc_ok _ Hf). cbn [bind].
+        eexists; eexists; split; [reflexivity|]. reflexivity.
+  - replace (Nat.ltb (length pdu) dp_diag_min_len) with true by (symmetry; apply Nat.ltb_lt; exact Hl).
+    split; [reflexivity|intro H; now elim H].
+Qed.
+
+Lemma class_flags h pdu : dg_class h pdu <> DgNone ->
+  fst (validate_outcome (pflags pdu)) =
+    match dg_class h pdu with
+    | DgFaultPrm | DgFault => PsOffline
+    | DgPrm => PsWaitForParam
+    | DgNotReady => PsValidateConfig
+    | _ => PsPreDataExchange
+    end /\
+  flags_contains (pflags pdu) DF_PARAMETER_REQUIRED = dg_prmreq (dg_class h pdu).
+Proof.
+  unfold dg_class, validate_outcome. fold (pflags pdu).
+  destruct (opt_eqb (h_dsap h) dp_diag_reply_dsap && opt_eqb (h_ssap h) dp_diag_reply_ssap &&
+            Nat.leb dp_diag_min_len (length pdu)); [|intro H; now elim H].
+  intros _.
+  destruct (flags_contains (pflags pdu) DF_PARAMETER_FAULT), (flags_contains (pflags pdu) DF_CONFIGURATION_FAULT),
+           (flags_contains (pflags pdu) DF_PARAMETER_REQUIRED), (flags_contains (pflags pdu) DF_STATION_NOT_READY);
+    split; reflexivity.
+Qed.
+
+Definition resp_ok (t : telegram) : Prop :=
+  match t with
+  | TToken _ _ => False
+  | TShortConf => True
+  | TData h _ => exists r st, h_fc h = FcResponse r st
+  end.
+
+Lemma admissible_resp_ok own da t : admissible own da t = true -> resp_ok t.
+Proof.
+  destruct t as [h pdu|d s|]; simpl; intro H; [|discriminate|exact I].
+  apply andb_prop in H. destruct H as [_ H]. destruct (h_fc h) as [|r st]; [discriminate|]. eauto.
+Qed.
+
+Ltac psimp := cbn [pe_addr pe_state pe_retry pe_fcb pe_pi_i pe_pi_q pe_diag pe_ext pe_diag_needed pe_diag_in_flight pe_opts
+                   set_state set_retry set_fcb set_pi_i set_pi_q set_diag set_diag_needed set_diag_in_flight].
+
+Lemma recv_sound fx p t : pe_fcb p <> FcbInactive -> f_in0 fx = Nat.eqb (length (pe_pi_i p)) 0 -> resp_ok t ->
+  exists p' ev acc, p_receive_reply p t = Ok (p', ev) /\
+    mrecv fx (pe_state p) (pe_fcb p) (pe_diag_needed p) (pe_diag_in_flight p)
+          (class_of (length (pe_pi_i p)) (Some t)) = (pe_state p', pe_fcb p', pe_diag_needed p', acc) /\
+    pe_retry p' = (if acc then 0 else pe_retry p) /\
+    pe_diag_in_flight p' = pe_diag_in_flight p /\ pe_addr p' = pe_addr p /\ pe_opts p' = pe_opts p /\
+    pe_pi_q p' = pe_pi_q p /\ length (pe_pi_i p') = length (pe_pi_i p).
+Proof.
+  intros Hf Hin Hok. unfold p_receive_reply.
+  destruct (pe_state p) eqn:Hst.
+  - (* Offline *)
+    destruct t as [h pdu|d s|]; [|now elim Hok|].
+    + destruct (handle_diag_spec p h pdu Hf) as [H1 H2]. cbn [class_of mrecv].
+      destruct (dg_class h pdu) eqn:Hd.
+      { rewrite (H1 eq_refl). cbn [bind]. do 3 eexists. split; [reflexivity|]. cbn [dg_is_diag]. rewrite Hst.
+        repeat split; reflexivity. }
+      all: destruct H2 as (d & x & He & _); [discriminate|]; rewrite He; cbn [bind];
+        do 3 eexists; (split; [reflexivity|]); cbn [dg_is_diag]; psimp; repeat split; reflexivity.
+    + cbn [p_handle_diag bind class_of mrecv]. do 3 eexists. split; [reflexivity|]. rewrite Hst. repeat split; reflexivity.
+  - (* WaitForParam *)
+    destruct t as [h pdu|d s|]; [|now elim Hok|]; cbn [is_sc class_of mrecv].
+    + do 3 eexists. split; [reflexivity|]. rewrite Hst. repeat split; reflexivity.
+    + rewrite (cyc_ok _ Hf). cbn [bind]. do 3 eexists. split; [reflexivity|]. psimp. repeat split; reflexivity.
+  - (* WaitForConfig *)
+    destruct t as [h pdu|d s|]; [|now elim Hok|]; cbn [is_sc class_of mrecv].
+    + do 3 eexists. split; [reflexivity|]. rewrite Hst. repeat split; reflexivity.
+    + rewrite (cyc_ok _ Hf). cbn [bind]. do 3 eexists. split; [reflexivity|]. psimp. repeat split; reflexivity.
+  - (* ValidateConfig *)
+    destruct t as [h pdu|d s|]; [|now elim Hok|].
+    + assert (Hf0 : pe_fcb (set_retry p 0) <> FcbInactive) by exact Hf.
+      destruct (handle_diag_spec (set_retry p 0) h pdu Hf0) as [H1 H2]. cbn [class_of mrecv].
+      destruct (dg_class h pdu) eqn:Hd.
+      { rewrite (H1 eq_refl). cbn [bind]. do 3 eexists. split; [reflexivity|]. psimp.
+        repeat split; reflexivity. }
+      all: destruct H2 as (d & x & He & Hfl); [discriminate|]; rewrite He; cbn [bind];
+        assert (Hc : dg_class h pdu <> DgNone) by (rewrite Hd; discriminate);
+        destruct (class_flags h pdu Hc) as [Hv _]; rewrite Hd in Hv; rewrite Hfl;
+        destruct (validate_outcome (pflags pdu)) as [s' ev']; cbn [fst] in Hv; subst s';
+        do 3 eexists; (split; [reflexivity|]); psimp; repeat split; reflexivity.
+    + cbn [p_handle_diag bind class_of mrecv]. do 3 eexists. split; [reflexivity|]. psimp. repeat split; reflexivity.
+  - (* PreDataExchange *)
+    destruct (pe_diag_in_flight p) eqn:Hfl.
+    + destruct t as [h pdu|d s|]; [|now elim Hok|].
+      * destruct (handle_diag_spec p h pdu Hf) as [H1 H2]. cbn [class_of mrecv].
+        destruct (dg_class h pdu) eqn:Hd.
+        { rewrite (H1 eq_refl). cbn [bind]. do 3 eexists. split; [reflexivity|]. cbn [dg_is_diag]. rewrite Hst, Hfl.
+          repeat split; reflexivity. }
+        all: destruct H2 as (d & x & He & Hfg); [discriminate|]; rewrite He; cbn [bind];
+          assert (Hc : dg_class h pdu <> DgNone) by (rewrite Hd; discriminate);
+          destruct (class_flags h pdu Hc) as [_ Hp]; rewrite Hd in Hp; rewrite Hfg, Hp;
+          do 3 eexists; (split; [reflexivity|]); cbn [dg_is_diag dg_prmreq]; psimp; rewrite ?Hst, ?Hfl;
+          repeat split; reflexivity.
+      * cbn [p_handle_diag bind class_of mrecv]. do 3 eexists. split; [reflexivity|]. rewrite Hst, Hfl.
+        repeat split; reflexivity.
+    + destruct t as [h pdu|d s|]; [|now elim Hok|].
+      * destruct Hok as (rl & st & Hfc). unfold p_receive_dx. rewrite Hfc. cbn [class_of mrecv].
+        unfold dx_class. rewrite Hfc.
+        destruct st; cbn [bind];
+          try (destruct (Nat.eqb (length pdu) (length (pe_pi_i p))) eqn:Hlen; psimp; rewrite ?Hlen;
+               unfold copy_from_slice; psimp; rewrite ?(Nat.eqb_sym (length (pe_pi_i p)) (length pdu)), ?Hlen);
+          cbn [bind]; psimp; rewrite (cyc_ok _ Hf); cbn [bind];
+          do 3 eexists; (split; [reflexivity|]); psimp; rewrite ?Hst;
+          repeat split; try reflexivity; try exact Hfl; try (apply Nat.eqb_eq; exact Hlen).
+      * cbn [p_receive_dx class_of mrecv]. rewrite <- Hin.
+        destruct (f_in0 fx); cbn [negb bind]; psimp; rewrite (cyc_ok _ Hf); cbn [bind];
+          do 3 eexists; (split; [reflexivity|]); psimp; rewrite ?Hst; repeat split; try reflexivity; try exact Hfl.
+  - (* DataExchange *)
+    destruct (pe_diag_in_flight p) eqn:Hfl.
+    + destruct t as [h pdu|d s|]; [|now elim Hok|].
+      * destruct (handle_diag_spec p h pdu Hf) as [H1 H2]. cbn [class_of mrecv].
+        destruct (dg_class h pdu) eqn:Hd.
+        { rewrite (H1 eq_refl). cbn [bind]. do 3 eexists. split; [reflexivity|]. cbn [dg_is_diag]. rewrite Hst, Hfl.
+          repeat split; reflexivity. }
+        all: destruct H2 as (d & x & He & Hfg); [discriminate|]; rewrite He; cbn [bind];
+          assert (Hc : dg_class h pdu <> DgNone) by (rewrite Hd; discriminate);
+          destruct (class_flags h pdu Hc) as [_ Hp]; rewrite Hd in Hp; rewrite Hfg, Hp;
+          do 3 eexists; (split; [reflexivity|]); cbn [dg_is_diag dg_prmreq]; psimp; rewrite ?Hst, ?Hfl;
+          repeat split; reflexivity.
+      * cbn [p_handle_diag bind class_of mrecv]. do 3 eexists. split; [reflexivity|]. rewrite Hst, Hfl.
+        repeat split; reflexivity.
+    + destruct t as [h pdu|d s|]; [|now elim Hok|].
+      * destruct Hok as (rl & st & Hfc). unfold p_receive_dx. rewrite Hfc. cbn [class_of mrecv].
+        unfold dx_class. rewrite Hfc.
+        destruct st; cbn [bind];
+          try (destruct (Nat.eqb (length pdu) (length (pe_pi_i p))) eqn:Hlen; psimp; rewrite ?Hlen;
+               unfold copy_from_slice; psimp; rewrite ?(Nat.eqb_sym (length (pe_pi_i p)) (length pdu)), ?Hlen);
+          cbn [bind]; psimp; rewrite (cyc_ok _ Hf); cbn [bind];
+          do 3 eexists; (split; [reflexivity|]); psimp; rewrite ?Hst;
+          repeat split; try reflexivity; try exact Hfl; try (apply Nat.eqb_eq; exact Hlen).
+      * cbn [p_receive_dx class_of mrecv]. rewrite <- Hin.
+        destruct (f_in0 fx); cbn [negb bind]; psimp; rewrite (cyc_ok _ Hf); cbn [bind];
+          do 3 eexists; (split; [reflexivity|]); psimp; rewrite ?Hst; repeat split; try reflexivity; try exact Hfl.
+Qed.
+
+(* ================================================================== D. the slave's processing of a new request *)
+
+Ltac ssimp := cbn [sl_addr sl_ident sl_exp_cfg sl_in_len sl_out_len sl_silent sl_ready_delay sl_stat_diag sl_force1
+                   sl_force2 sl_ext sl_st sl_master sl_fcb sl_resp sl_prm_fault sl_cfg_fault sl_wd_on sl_freeze sl_sync
+                   sl_not_ready sl_diag_pending sl_outputs sl_counter sl_gc slave_dyn slave_store].
+
+Definition slave_setup_eq (s s' : slave) : Prop :=
+  sl_addr s' = sl_addr s /\ sl_ident s' = sl_ident s /\ sl_exp_cfg s' = sl_exp_cfg s /\
+  sl_in_len s' = sl_in_len s /\ sl_out_len s' = sl_out_len s /\ sl_silent s' = sl_silent s /\
+  sl_ready_delay s' = sl_ready_delay s /\ sl_stat_diag s' = sl_stat_diag s /\
+  sl_force1 s' = sl_force1 s /\ sl_force2 s' = sl_force2 s /\ sl_ext s' = sl_ext s.
+
+(* what the proofs need to know about the outcome of slave_process for a request of kind k *)
+Definition sproc_ok (own : Z) (s : slave) (k : akind) (r : slave * option bytes) : Prop :=
+  let (s', resp) := r in
+  sproc (fix_of s) k (sl_st s) (sl_prm_fault s) (sl_cfg_fault s) (sl_diag_pending s) (sl_not_ready s) =
+    (sl_st s', sl_prm_fault s', sl_cfg_fault s', sl_diag_pending s', sl_not_ready s',
+     class_of (sl_in_len s) (deliver own (sl_addr s) resp)) /\
+  slave_setup_eq s s' /\ (sl_not_ready s' <= 2)%nat.
+
+Lemma pattern_length n : forall c, length (pattern n c) = n.
+Proof. induction n; intro c; simpl; [reflexivity|]. rewrite IHn. reflexivity. Qed.
+
+Lemma setup_refl s : slave_setup_eq s s.
+Proof. repeat split; reflexivity. Qed.
+
+Section SlaveProcess.
+Variables (own : Z) (s : slave) (f : fcbit).
+Hypothesis Hown : 0 <= own <= 125.
+Hypothesis Haddr : 0 <= sl_addr s <= 125.
+Hypothesis Hf1 : sl_force1 s = 0.
+Hypothesis Hf2 : sl_force2 s = 0.
+Hypothesis Hdel : (sl_ready_delay s <= 2)%nat.
+Hypothesis Hnr : (sl_not_ready s <= 2)%nat.
+Hypothesis Hext : (length (sl_ext s) <= 238)%nat.
+Hypothesis Hin : (sl_in_len s <= 244)%nat.
+
+Lemma wf_resp h st : h_sa h = own -> wf_sap (h_ssap h) -> wf_sap (h_dsap h) -> wf_header (resp_header s h st).
+Proof.
+  intros Hsa H1 H2. unfold wf_header, resp_header, is_addr7. cbn [h_da h_sa h_dsap h_ssap]. rewrite Hsa.
+  repeat split; try lia; assumption.
+Qed.
+
+Lemma diag_pdu_flags : pflags (slave_diag_pdu s) =
+  sdiag_flags (negb (sl_state_eqb (sl_st s) SlDataExch) || negb (Nat.eqb (sl_not_ready s) 0)) (sl_cfg_fault s)
+              (negb (Nat.eqb (length (sl_ext s)) 0)) (sl_prm_fault s) (sl_state_eqb (sl_st s) SlWaitPrm)
+              (sl_stat_diag s) (sl_wd_on s) (sl_freeze s) (sl_sync s).
+Proof. unfold pflags, slave_diag_pdu, sdiag_flags. rewrite Hf1, Hf2. reflexivity. Qed.
+
+Lemma process_diag rq :
+  let h := mkHeader (sl_addr s) own (Some 60) (Some 62) (FcRequest f rq) in
+  sproc_ok own s KDiag (slave_process s h []).
+Proof.
+  intro h. unfold slave_process.
+  change (opt_eqb (h_dsap h) (Some STD_SAP_DIAG) && opt_eqb (h_ssap h) (Some STD_SAP_MS0)) with true.
+  cbv iota. unfold sproc_ok. ssimp.
+  assert (Hlen : length (slave_diag_pdu s) = (6 + length (sl_ext s))%nat).
+  { unfold slave_diag_pdu. rewrite app_length. reflexivity. }
+  rewrite (deliver_data own (sl_addr s) (resp_header s h StDataLow) (slave_diag_pdu s) RsSlave StDataLow).
+  2:{ apply wf_resp; [reflexivity|simpl; unfold is_byte; lia|simpl; unfold is_byte; lia]. }
+  2:{ unfold length_byte. rewrite Hlen. simpl. lia. }
+  2-4: reflexivity.
+  split; [|split; [(repeat split; reflexivity)|lia]].
+  assert (Hdg : dg_class (resp_header s h StDataLow) (slave_diag_pdu s) =
+                (let fault := sl_prm_fault s || sl_cfg_fault s in
+                 let prm := sl_state_eqb (sl_st s) SlWaitPrm in
+                 let notready := negb (sl_state_eqb (sl_st s) SlDataExch) || negb (Nat.eqb (sl_not_ready s) 0) in
+                 if fault then (if prm then DgFaultPrm else DgFault)
+                 else if prm then DgPrm else if notready then DgNotReady else DgReady)).
+  { unfold dg_class. fold (pflags (slave_diag_pdu s)).
+    change (opt_eqb (h_dsap (resp_header s h StDataLow)) dp_diag_reply_dsap) with true.
+    change (opt_eqb (h_ssap (resp_header s h StDataLow)) dp_diag_reply_ssap) with true.
+    replace (Nat.leb dp_diag_min_len (length (slave_diag_pdu s))) with true
+      by (symmetry; apply Nat.leb_le; rewrite Hlen; unfold dp_diag_min_len; lia).
+    cbn [andb]. rewrite diag_pdu_flags.
+    match goal with |- context [sdiag_flags ?a ?b ?c ?d ?e ?g ?i ?j ?k] =>
+      destruct (sdiag_flags_spec a b c d e g i j k) as (E1 & E2 & E3 & E4) end.
+    cbv zeta. rewrite E1, E2, E3, E4. reflexivity. }
+  assert (Hdx : dx_class (sl_in_len s) (resp_header s h StDataLow) (slave_diag_pdu s) =
+                if f_dgl (fix_of s) then XOk else XIgnore).
+  { unfold dx_class, fix_of. cbn [h_fc resp_header f_dgl]. rewrite Hlen. reflexivity. }
+  unfold sproc, class_of. rewrite Hdg, Hdx. reflexivity.
+Qed.
+
+Lemma process_prm rq (pa : params) (o : poptions) (user : bytes) :
+  sl_ident s = o_ident o ->
+  let h := mkHeader (sl_addr s) own (Some 61) (Some 62) (FcRequest f rq) in
+  sproc_ok own s KPrm (slave_process s h (set_prm_pdu pa o user)).
+Proof.
+  intros Hid h. unfold slave_process.
+  change (opt_eqb (h_dsap h) (Some STD_SAP_DIAG) && opt_eqb (h_ssap h) (Some STD_SAP_MS0)) with false.
+  change (opt_eqb (h_dsap h) (Some STD_SAP_SET_PRM) && opt_eqb (h_ssap h) (Some STD_SAP_MS0)) with true.
+  cbv iota.
+  assert (Hl : Nat.leb 7 (length (set_prm_pdu pa o user)) = true).
+  { unfold set_prm_pdu. rewrite app_length. apply Nat.leb_le. simpl. lia. }
+  assert (Hi : (256 * nth 4 (set_prm_pdu pa o user) 0 + nth 5 (set_prm_pdu pa o user) 0 =? sl_ident s) = true).
+  { unfold set_prm_pdu. cbn [nth app]. rewrite Hid. apply Z.eqb_eq.
+    pose proof (Z.div_mod (o_ident o) 256). lia. }
+  rewrite Hl, Hi. cbn [andb]. unfold sproc_ok. ssimp. rewrite deliver_sc.
+  split; [reflexivity|]. split; [(repeat split; reflexivity)|lia].
+Qed.
+
+Lemma process_cfg rq (cfg : bytes) :
+  bytes_eqb cfg (sl_exp_cfg s) = true ->
+  let h := mkHeader (sl_addr s) own (Some 62) (Some 62) (FcRequest f rq) in
+  sproc_ok own s KCfg (slave_process s h cfg).
+Proof.
+  intros Hc h. unfold slave_process.
+  change (opt_eqb (h_dsap h) (Some STD_SAP_DIAG) && opt_eqb (h_ssap h) (Some STD_SAP_MS0)) with false.
+  change (opt_eqb (h_dsap h) (Some STD_SAP_SET_PRM) && opt_eqb (h_ssap h) (Some STD_SAP_MS0)) with false.
+  change (opt_eqb (h_dsap h) (Some STD_SAP_CHK_CFG) && opt_eqb (h_ssap h) (Some STD_SAP_MS0)) with true.
+  cbv iota. unfold sproc_ok, sproc.
+  destruct (sl_state_eqb (sl_st s) SlWaitPrm) eqn:Hst.
+  - unfold resp_rs.
+    rewrite (deliver_data own (sl_addr s) (resp_header s h StSapNotEnabled) [] RsSlave StSapNotEnabled).
+    2:{ apply wf_resp; [reflexivity|simpl; unfold is_byte; lia|simpl; unfold is_byte; lia]. }
+    2:{ unfold length_byte. simpl. lia. }
+    2-4: reflexivity.
+    split; [reflexivity|]. split; [(repeat split; reflexivity)|exact Hnr].
+  - rewrite Hc. ssimp. rewrite deliver_sc. split; [reflexivity|]. split; [(repeat split; reflexivity)|exact Hdel].
+Qed.
+
+Lemma process_dx rq (pdu : bytes) :
+  length pdu = sl_out_len s ->
+  let h := mkHeader (sl_addr s) own None None (FcRequest f rq) in
+  sproc_ok own s KDx (slave_process s h pdu).
+Proof.
+  intros Hl h. unfold slave_process.
+  change (opt_eqb (h_dsap h) (Some STD_SAP_DIAG) && opt_eqb (h_ssap h) (Some STD_SAP_MS0)) with false.
+  change (opt_eqb (h_dsap h) (Some STD_SAP_SET_PRM) && opt_eqb (h_ssap h) (Some STD_SAP_MS0)) with false.
+  change (opt_eqb (h_dsap h) (Some STD_SAP_CHK_CFG) && opt_eqb (h_ssap h) (Some STD_SAP_MS0)) with false.
+  change (opt_eqb (h_dsap h) None && opt_eqb (h_ssap h) None) with true.
+  cbv iota. rewrite Hl, Nat.eqb_refl, andb_true_r. unfold sproc_ok, sproc.
+  destruct (sl_state_eqb (sl_st s) SlDataExch && Nat.eqb (sl_not_ready s) 0) eqn:Hc.
+  - apply andb_prop in Hc. destruct Hc as [Hs Hn]. apply sl_eqb_eq in Hs. apply Nat.eqb_eq in Hn.
+    unfold fix_of. cbn [f_in0 f_stat].
+    destruct (Nat.eqb (sl_in_len s) 0) eqn:Hi0.
+    + ssimp. rewrite deliver_sc. split; [rewrite ?Hs; reflexivity|]. split; [(repeat split; reflexivity)|lia].
+    + ssimp.
+      match goal with |- context [frame_spec (resp_header s h ?st) ?pd] =>
+        rewrite (deliver_data own (sl_addr s) (resp_header s h st) pd RsSlave st) end.
+      2:{ apply wf_resp; [reflexivity|exact I|exact I]. }
+      2:{ unfold length_byte. rewrite pattern_length. simpl. lia. }
+      2-4: reflexivity.
+      split; [|split; [(repeat split; reflexivity)|lia]].
+      rewrite ?Hs. unfold class_of, dg_class, dx_class.
+      change (opt_eqb (h_dsap (resp_header s h _)) dp_diag_reply_dsap) with false. cbn [andb].
+      cbn [h_fc resp_header]. rewrite pattern_length, Nat.eqb_refl.
+      destruct (sl_diag_pending s || sl_stat_diag s); reflexivity.
+  - unfold resp_rs.
+    rewrite (deliver_data own (sl_addr s) (resp_header s h StSapNotEnabled) [] RsSlave StSapNotEnabled).
+    2:{ apply wf_resp; [reflexivity|exact I|exact I]. }
+    2:{ unfold length_byte. simpl. lia. }
+    2-4: reflexivity.
+    split; [reflexivity|]. split; [(repeat split; reflexivity)|exact Hnr].
+Qed.
+
+End SlaveProcess.
+
+(* ================================================================== E. one exchange request -> reply *)
+
+Definition req_of (pa : params) (op : opstate) (p : periph) (k : akind) (user cfg : bytes) : header * bytes :=
+  match k with
+  | KDiag => (mkHeader (pe_addr p) (p_address pa) (Some 60) (Some 62) (FcRequest (pe_fcb p) RqSrdLow), [])
+  | KPrm => (mkHeader (pe_addr p) (p_address pa) (Some 61) (Some 62) (FcRequest (pe_fcb p) RqSrdLow),
+             set_prm_pdu pa (pe_opts p) user)
+  | KCfg => (mkHeader (pe_addr p) (p_address pa) (Some 62) (Some 62) (FcRequest (pe_fcb p) RqSrdLow), cfg)
+  | KDx => (mkHeader (pe_addr p) (p_address pa) None None (FcRequest (pe_fcb p) RqSrdHigh), dx_pdu op p)
+  end.
+
+Definition evl (ev : option pevent) : list pevent := match ev with Some e => [e] | None => [] end.
+
+(* the part of joint_cycle after the request has been written *)
+Definition exchange (pa : params) (p1 : periph) (s : slave) (h : header) (pdu : bytes) : res (jstate * list pevent) :=
+  let (s1, reply) := slave_step s (frame_spec h pdu) in
+  match deliver (p_address pa) (pe_addr p1) reply with
+  | Some t => let* (p2, ev) := p_receive_reply p1 t in Ok ((p2, s1), evl ev)
+  | None => Ok ((p1, s1), [])
+  end.
+
+Lemma mrecv_none fx ps fcb nd inf : mrecv fx ps fcb nd inf ANone = (ps, fcb, nd, false).
+Proof. destruct ps, inf; reflexivity. Qed.
+
+Lemma deliver_recv own fx p1 (s1 : slave) reply :
+  pe_fcb p1 <> FcbInactive -> f_in0 fx = Nat.eqb (length (pe_pi_i p1)) 0 ->
+  exists p2 evs acc,
+    match deliver own (pe_addr p1) reply with
+    | Some t => let* (p2, ev) := p_receive_reply p1 t in Ok ((p2, s1), evl ev)
+    | None => Ok ((p1, s1), [])
+    end = Ok ((p2, s1), evs) /\
+    mrecv fx (pe_state p1) (pe_fcb p1) (pe_diag_needed p1) (pe_diag_in_flight p1)
+          (class_of (length (pe_pi_i p1)) (deliver own (pe_addr p1) reply))
+      = (pe_state p2, pe_fcb p2, pe_diag_needed p2, acc) /\
+    pe_retry p2 = (if acc then 0 else pe_retry p1) /\
+    pe_diag_in_flight p2 = pe_diag_in_flight p1 /\ pe_addr p2 = pe_addr p1 /\ pe_opts p2 = pe_opts p1 /\
+    pe_pi_q p2 = pe_pi_q p1 /\ length (pe_pi_i p2) = length (pe_pi_i p1).
+Proof.
+  intros Hf Hin. destruct (deliver own (pe_addr p1) reply) as [t|] eqn:Hd.
+  - pose proof (admissible_resp_ok _ _ _ (deliver_admissible _ _ _ _ Hd)) as Hok.
+    destruct (recv_sound fx p1 t Hf Hin Hok) as (p2 & ev & acc & He & Hm & Hr & Hrest).
+    rewrite He. cbn [bind]. exists p2, (evl ev), acc. split; [reflexivity|]. split; [exact Hm|]. split; [exact Hr|exact Hrest].
+  - exists p1, [], false. split; [reflexivity|]. rewrite mrecv_none. repeat split; reflexivity.
+Qed.
+
+Lemma fcb_cyc_ne f : f <> FcbInactive -> cyc f <> FcbInactive.
+Proof. destruct f; simpl; intro H; try discriminate. now elim H. Qed.
+
+Lemma mrecv_fcb_ne fx ps fcb nd inf r ps' fcb' nd' acc :
+  fcb <> FcbInactive -> mrecv fx ps fcb nd inf r = (ps', fcb', nd', acc) -> fcb' <> FcbInactive.
+Proof.
+  intros Hf H. assert (Hc := fcb_cyc_ne fcb Hf).
+  assert (E : fcb' = fcb \/ fcb' = cyc fcb).
+  { unfold mrecv in H.
+    destruct ps; destruct r as [| |d x]; try destruct inf; try destruct d; try destruct x;
+      cbn [dg_is_diag dg_prmreq] in H; inversion H; auto. }
+  destruct E as [-> | ->]; assumption.
+Qed.
+
+Lemma exchange_sound pa op p1 s k user cfg :
+  jinv pa p1 s -> o_user_prm (pe_opts p1) = Some user -> o_config (pe_opts p1) = Some cfg ->
+  exists p2 s1 evs acc,
+    exchange pa p1 s (fst (req_of pa op p1 k user cfg)) (snd (req_of pa op p1 k user cfg)) = Ok ((p2, s1), evs) /\
+    jinv pa p2 s1 /\ fix_of s1 = fix_of s /\
+    asend (fix_of s) k (fst (proj pa (p1, s))) = (fst (proj pa (p2, s1)), acc) /\
+    pe_retry p2 = (if acc then 0 else pe_retry p1).
+Proof.
+  intros J Hu Hc.
+  destruct J as [Jown Jaddr Jsl Jid (user' & Ju & Jul) (cfg' & Jc & Jce & Jcl) [Jin Jinl] [Jout Joutl] Jf Jr JM
+                 (Jsil & Jf1 & Jf2) [Jd Jn] Jext].
+  rewrite Hu in Ju. inversion Ju; subst user'. rewrite Hc in Jc. inversion Jc; subst cfg'. clear Ju Jc.
+  set (h := fst (req_of pa op p1 k user cfg)). set (pdu := snd (req_of pa op p1 k user cfg)).
+  assert (Hh : h_da h = sl_addr s /\ h_sa h = p_address pa /\ wf_header h /\
+               (exists rq, h_fc h = FcRequest (pe_fcb p1) rq /\ (rq = RqSrdLow \/ rq = RqSrdHigh)) /\
+               (length_byte h (length pdu) <= 249)%nat).
+  { unfold h, pdu, req_of, wf_header, is_addr7, length_byte. rewrite Jsl.
+    destruct k; cbn [fst snd h_da h_sa h_dsap h_ssap h_fc wf_sap has_sap]; unfold is_byte;
+      (split; [reflexivity|]); (split; [reflexivity|]); (split; [repeat split; lia|]);
+      (split; [eexists; split; [reflexivity|auto]|]).
+    - simpl. lia.
+    - unfold set_prm_pdu. rewrite app_length. simpl. lia.
+    - lia.
+    - unfold dx_pdu. destruct (opstate_eqb op OpOperate); rewrite ?repeat_length; lia. }
+  destruct Hh as (Hda & Hsa & Hwf & (rq & Hfc & Hrq) & Hlen).
+  (* the slave's side *)
+  assert (Hsl : exists s1 reply,
+            slave_step s (frame_spec h pdu) = (s1, reply) /\
+            (if fresh (pe_fcb p1) (sl_fcb s)
+             then let '(sl, prmf, cfgf, pend, nr, r) :=
+                        sproc (fix_of s) k (sl_st s) (sl_prm_fault s) (sl_cfg_fault s) (sl_diag_pending s) (sl_not_ready s) in
+                  (sl, prmf, cfgf, pend, nr, stored (pe_fcb p1), r, r)
+             else (sl_st s, sl_prm_fault s, sl_cfg_fault s, sl_diag_pending s, sl_not_ready s, sl_fcb s,
+                   class_of (sl_in_len s) (deliver (p_address pa) (sl_addr s) (sl_resp s)),
+                   class_of (sl_in_len s) (deliver (p_address pa) (sl_addr s) (sl_resp s)))) =
+            (sl_st s1, sl_prm_fault s1, sl_cfg_fault s1, sl_diag_pending s1, sl_not_ready s1, sl_fcb s1,
+             class_of (sl_in_len s) (deliver (p_address pa) (sl_addr s) (sl_resp s1)),
+             class_of (sl_in_len s) (deliver (p_address pa) (sl_addr s) reply)) /\
+            slave_setup_eq s s1 /\ (sl_not_ready s1 <= 2)%nat).
+  { rewrite (slave_step_request s h pdu (pe_fcb p1) rq Jsil Hwf Hlen Hfc Hrq Hda).
+    destruct (fresh (pe_fcb p1) (sl_fcb s)).
+    - assert (Hp : sproc_ok (p_address pa) s k (slave_process s h pdu)).
+      { assert (Ha : 0 <= sl_addr s <= 125) by (rewrite Jsl; exact Jaddr).
+        unfold h, pdu, req_of. rewrite <- Jsl.
+        destruct k; cbn [fst snd].
+        - apply process_diag; assumption.
+        - apply process_prm; assumption.
+        - apply process_cfg; assumption.
+        - apply process_dx; try assumption.
+          unfold dx_pdu. destruct (opstate_eqb op OpOperate); rewrite ?repeat_length; exact Jout. }
+      destruct (slave_process s h pdu) as [s' resp]. unfold sproc_ok in Hp. destruct Hp as (Hp & Hset & Hn').
+      exists (slave_store s' (stored (pe_fcb p1)) resp), resp. split; [reflexivity|].
+      rewrite Hp. ssimp. split; [reflexivity|]. split; [exact Hset|exact Hn'].
+    - exists s, (sl_resp s). split; [reflexivity|]. split; [reflexivity|]. split; [repeat split; reflexivity|exact Jn]. }
+  destruct Hsl as (s1 & reply & Hstep & Habs & Hset & Hn1).
+  (* the master's side *)
+  assert (Hin0 : f_in0 (fix_of s) = Nat.eqb (length (pe_pi_i p1)) 0) by (unfold fix_of; cbn [f_in0]; rewrite Jin; reflexivity).
+  destruct (deliver_recv (p_address pa) (fix_of s) p1 s1 reply Jf Hin0)
+    as (p2 & evs & acc & Hex & Hm & Hretry & Hfl & Ha & Ho & Hq & Hi).
+  exists p2, s1, evs, acc.
+  destruct Hset as (S1 & S2 & S3 & S4 & S5 & S6 & S7 & S8 & S9 & S10 & S11).
+  split; [unfold exchange; rewrite Hstep; exact Hex|].
+  split.
+  { constructor; try assumption.
+    - rewrite Ha; exact Jaddr.
+    - rewrite S1, Ha; exact Jsl.
+    - rewrite S2, Ho; exact Jid.
+    - rewrite Ho. exists user. split; assumption.
+    - rewrite Ho, S3. exists cfg. repeat split; assumption.
+    - rewrite Hi, S4. split; assumption.
+    - rewrite Hq, S5. split; assumption.
+    - eapply mrecv_fcb_ne; [exact Jf|exact Hm].
+    - rewrite Hretry. destruct acc; [lia|exact Jr].
+    - rewrite S6, S9, S10. repeat split; assumption.
+    - rewrite S7. split; assumption.
+    - rewrite S11. exact Jext. }
+  split; [unfold fix_of; rewrite S8, S4, S11, S7; reflexivity|].
+  split; [|exact Hretry].
+  unfold asend, proj.
+  cbn [fst u_ps u_fcb u_needed u_inflight u_sl u_sfcb u_resp u_prmf u_cfgf u_pend u_nr].
+  rewrite Habs. cbv beta iota.
+  rewrite Jin, <- Jsl in Hm. rewrite Hm. rewrite S1, S4, Hfl. reflexivity.
+Qed.
+
+(* ================================================================== F. data independence: the projection is a simulation *)
+
+Ltac psimp_in H := cbn [pe_addr pe_state pe_retry pe_fcb pe_pi_i pe_pi_q pe_diag pe_ext pe_diag_needed pe_diag_in_flight pe_opts
+                   set_state set_retry set_fcb set_pi_i set_pi_q set_diag set_diag_needed set_diag_in_flight] in H.
+
+Lemma jinv_master pa p s pl : jinv pa p s ->
+  pe_addr pl = pe_addr p -> pe_opts pl = pe_opts p -> pe_pi_i pl = pe_pi_i p -> pe_pi_q pl = pe_pi_q p ->
+  pe_fcb pl <> FcbInactive -> 0 <= pe_retry pl -> jinv pa pl s.
+Proof.
+  intros [] Ha Ho Hi Hq Hf Hr. constructor; rewrite ?Ha, ?Ho, ?Hi, ?Hq; assumption.
+Qed.
+
+Lemma send_case pa op pl s k user cfg :
+  jinv pa pl s -> o_user_prm (pe_opts pl) = Some user -> o_config (pe_opts pl) = Some cfg ->
+  let p1 := set_retry pl (pe_retry pl + 1) in
+  exists p' s' evs,
+    exchange pa p1 s (fst (req_of pa op pl k user cfg)) (snd (req_of pa op pl k user cfg)) = Ok ((p', s'), evs) /\
+    jinv pa p' s' /\ fix_of s' = fix_of s /\
+    proj pa (p', s') =
+      (let (u', reset) := asend (fix_of s) k (fst (proj pa (pl, s))) in
+       (u', if reset then 0%nat else S (Z.to_nat (pe_retry pl)))).
+Proof.
+  intros J Hu Hc p1.
+  assert (J1 : jinv pa p1 s).
+  { apply (jinv_master pa pl s p1 J); try reflexivity; [exact (ji_fcb _ _ _ J)|].
+    unfold p1. psimp. pose proof (ji_retry _ _ _ J). lia. }
+  destruct (exchange_sound pa op p1 s k user cfg J1 Hu Hc) as (p2 & s1 & evs & acc & Hex & J2 & Hfx & Has & Hr).
+  exists p2, s1, evs. split; [exact Hex|]. split; [exact J2|]. split; [exact Hfx|].
+  change (fst (proj pa (pl, s))) with (fst (proj pa (p1, s))). rewrite Has.
+  unfold proj at 1. unfold proj at 1. cbn [fst]. f_equal. rewrite Hr.
+  destruct acc; [reflexivity|]. unfold p1. psimp. pose proof (ji_retry _ _ _ J).
+  rewrite Z2Nat.inj_add by lia. simpl. lia.
+Qed.
+
+Theorem sim_step pa op p s : jinv pa p s -> op <> OpStop ->
+  exists p' s' evs, joint_cycle pa op (p, s) = Ok ((p', s'), evs) /\ jinv pa p' s' /\ fix_of s' = fix_of s /\
+    proj pa (p', s') = astep (fix_of s) (Z.to_nat (p_max_retry pa)) (proj pa (p, s)).
+Proof.
+  intros J Hop.
+  pose proof (ji_retry _ _ _ J) as Jr. pose proof (ji_M _ _ _ J) as JM. pose proof (ji_fcb _ _ _ J) as Jf.
+  destruct (ji_prm _ _ _ J) as (user & Hu & _). destruct (ji_cfg _ _ _ J) as (cfg & Hc & _).
+  unfold joint_cycle, p_transmit. rewrite (opstate_eqb_stop op Hop). unfold p_transmit_select.
+  unfold astep. unfold proj at 2.
+  assert (Hex : Nat.ltb (Z.to_nat (p_max_retry pa)) (Z.to_nat (pe_retry p)) =
+                dp_retry_exhausted (pe_retry p) (p_max_retry pa)).
+  { unfold dp_retry_exhausted. destruct (Z.ltb_spec (p_max_retry pa) (pe_retry p)) as [H|H].
+    - apply Nat.ltb_lt. lia.
+    - apply Nat.ltb_ge. lia. }
+  rewrite Hex. destruct (dp_retry_exhausted (pe_retry p) (p_max_retry pa)) eqn:Hx.
+  { (* retries exhausted: Offline *)
+    cbn [bind]. do 3 eexists. split; [reflexivity|]. split; [|split; reflexivity].
+    apply (jinv_master pa p s _ J); try reflexivity; try discriminate; try (psimp; lia). }
+  unfold dp_retry_exhausted in Hx. apply Z.ltb_ge in Hx.
+  assert (Hz : Nat.eqb (Z.to_nat (pe_retry p)) 0 = (pe_retry p =? 0)).
+  { destruct (Z.eqb_spec (pe_retry p) 0) as [H|H]; [rewrite H; reflexivity|]. apply Nat.eqb_neq. lia. }
+  rewrite Hz.
+  assert (H255 : (255 <=? pe_retry p) = false) by (apply Z.leb_gt; lia).
+  unfold body. cbn [u_ps u_needed u_inflight].
+  destruct (pe_state p) eqn:Hst.
+  - (* Offline *)
+    unfold dp_offline_probe_retry. destruct (pe_retry p =? 0) eqn:H0.
+    + unfold diag_request. cbn [bind pe_retry]. rewrite H255. cbn [bind].
+      destruct (send_case pa op p s KDiag user cfg J Hu Hc) as (p' & s' & evs & He & J' & Hfx & Hp).
+      exists p', s', evs. split; [|split; [exact J'|split; [exact Hfx|]]].
+      * unfold exchange in He. cbn [req_of fst snd] in He. psimp_in He. exact He.
+      * rewrite Hp. unfold proj. cbn [fst]. rewrite Hst. reflexivity.
+    + cbn [bind]. do 3 eexists. split; [reflexivity|]. split; [|split; [reflexivity|]].
+      * apply (jinv_master pa p s _ J); try reflexivity; try discriminate; try (psimp; lia).
+      * unfold proj. psimp. rewrite Hst. reflexivity.
+  - (* WaitForParam *)
+    rewrite Hu. unfold prm_request. cbn [bind pe_retry]. rewrite H255. cbn [bind].
+    destruct (send_case pa op p s KPrm user cfg J Hu Hc) as (p' & s' & evs & He & J' & Hfx & Hp).
+    exists p', s', evs. split; [|split; [exact J'|split; [exact Hfx|]]].
+    * unfold exchange in He. cbn [req_of fst snd] in He. psimp_in He. exact He.
+    * rewrite Hp. unfold proj. cbn [fst]. rewrite Hst. reflexivity.
+  - (* WaitForConfig *)
+    rewrite Hc. unfold cfg_request. cbn [bind pe_retry]. rewrite H255. cbn [bind].
+    destruct (send_case pa op p s KCfg user cfg J Hu Hc) as (p' & s' & evs & He & J' & Hfx & Hp).
+    exists p', s', evs. split; [|split; [exact J'|split; [exact Hfx|]]].
+    * unfold exchange in He. cbn [req_of fst snd] in He. psimp_in He. exact He.
+    * rewrite Hp. unfold proj. cbn [fst]. rewrite Hst. reflexivity.
+  - (* ValidateConfig *)
+    unfold diag_request. cbn [bind pe_retry]. rewrite H255. cbn [bind].
+    destruct (send_case pa op p s KDiag user cfg J Hu Hc) as (p' & s' & evs & He & J' & Hfx & Hp).
+    exists p', s', evs. split; [|split; [exact J'|split; [exact Hfx|]]].
+    * unfold exchange in He. cbn [req_of fst snd] in He. psimp_in He. exact He.
+    * rewrite Hp. unfold proj. cbn [fst]. rewrite Hst. reflexivity.
+  - (* PreDataExchange *)
+    set (pl := if pe_retry p =? 0 then set_diag_in_flight p (pe_diag_needed p) else p).
+    assert (Jl : jinv pa pl s).
+    { apply (jinv_master pa p s pl J); unfold pl; destruct (pe_retry p =? 0); try reflexivity; assumption. }
+    assert (Hul : o_user_prm (pe_opts pl) = Some user) by (unfold pl; destruct (pe_retry p =? 0); exact Hu).
+    assert (Hcl : o_config (pe_opts pl) = Some cfg) by (unfold pl; destruct (pe_retry p =? 0); exact Hc).
+    assert (Hrl : pe_retry pl = pe_retry p) by (unfold pl; destruct (pe_retry p =? 0); reflexivity).
+    assert (Hpl : fst (proj pa (pl, s)) =
+                  (if pe_retry p =? 0 then set_inflight (fst (proj pa (p, s))) (pe_diag_needed p) else fst (proj pa (p, s)))).
+    { unfold pl. destruct (pe_retry p =? 0); reflexivity. }
+    destruct (pe_diag_in_flight pl) eqn:Hifl.
+    + unfold diag_request. cbn [bind]. rewrite Hrl, H255. cbn [bind].
+      destruct (send_case pa op pl s KDiag user cfg Jl Hul Hcl) as (p' & s' & evs & He & J' & Hfx & Hp).
+      exists p', s', evs. split; [|split; [exact J'|split; [exact Hfx|]]].
+      * unfold exchange in He. cbn [req_of fst snd] in He. psimp_in He. rewrite Hrl in He.
+        replace (pe_addr p) with (pe_addr pl) by (unfold pl; destruct (pe_retry p =? 0); reflexivity).
+        exact He.
+      * rewrite Hp, Hpl, Hrl. unfold proj. cbn [fst]. rewrite ?Hst.
+        replace (u_inflight (if pe_retry p =? 0 then _ else _)) with true
+          by (rewrite <- Hifl; unfold pl; destruct (pe_retry p =? 0); reflexivity).
+        reflexivity.
+    + unfold dx_request. cbn [bind]. rewrite Hrl, H255. cbn [bind].
+      destruct (send_case pa op pl s KDx user cfg Jl Hul Hcl) as (p' & s' & evs & He & J' & Hfx & Hp).
+      exists p', s', evs. split; [|split; [exact J'|split; [exact Hfx|]]].
+      * unfold exchange in He. cbn [req_of fst snd] in He. psimp_in He. rewrite Hrl in He.
+        replace (pe_addr p) with (pe_addr pl) by (unfold pl; destruct (pe_retry p =? 0); reflexivity).
+        exact He.
+      * rewrite Hp, Hpl, Hrl. unfold proj. cbn [fst]. rewrite ?Hst.
+        replace (u_inflight (if pe_retry p =? 0 then _ else _)) with false
+          by (rewrite <- Hifl; unfold pl; destruct (pe_retry p =? 0); reflexivity).
+        reflexivity.
+  - (* DataExchange *)
+    set (pl := if pe_retry p =? 0 then set_diag_in_flight p (pe_diag_needed p) else p).
+    assert (Jl : jinv pa pl s).
+    { apply (jinv_master pa p s pl J); unfold pl; destruct (pe_retry p =? 0); try reflexivity; assumption. }
+    assert (Hul : o_user_prm (pe_opts pl) = Some user) by (unfold pl; destruct (pe_retry p =? 0); exact Hu).
+    assert (Hcl : o_config (pe_opts pl) = Some cfg) by (unfold pl; destruct (pe_retry p =? 0); exact Hc).
+    assert (Hrl : pe_retry pl = pe_retry p) by (unfold pl; destruct (pe_retry p =? 0); reflexivity).
+    assert (Hpl : fst (proj pa (pl, s)) =
+                  (if pe_retry p =? 0 then set_inflight (fst (proj pa (p, s))) (pe_diag_needed p) else fst (proj pa (p, s)))).
+    { unfold pl. destruct (pe_retry p =? 0); reflexivity. }
+    destruct (pe_diag_in_flight pl) eqn:Hifl.
+    + unfold diag_request. cbn [bind]. rewrite Hrl, H255. cbn [bind].
+      destruct (send_case pa op pl s KDiag user cfg Jl Hul Hcl) as (p' & s' & evs & He & J' & Hfx & Hp).
+      exists p', s', evs. split; [|split; [exact J'|split; [exact Hfx|]]].
+      * unfold exchange in He. cbn [req_of fst snd] in He. psimp_in He. rewrite Hrl in He.
+        replace (pe_addr p) with (pe_addr pl) by (unfold pl; destruct (pe_retry p =? 0); reflexivity).
+        exact He.
+      * rewrite Hp, Hpl, Hrl. unfold proj. cbn [fst]. rewrite ?Hst.
+        replace (u_inflight (if pe_retry p =? 0 then _ else _)) with true
+          by (rewrite <- Hifl; unfold pl; destruct (pe_retry p =? 0); reflexivity).
+        reflexivity.
+    + unfold dx_request. cbn [bind]. rewrite Hrl, H255. cbn [bind].
+      destruct (send_case pa op pl s KDx user cfg Jl Hul Hcl) as (p' & s' & evs & He & J' & Hfx & Hp).
+      exists p', s', evs. split; [|split; [exact J'|split; [exact Hfx|]]].
+      * unfold exchange in He. cbn [req_of fst snd] in He. psimp_in He. rewrite Hrl in He.
+        replace (pe_addr p) with (pe_addr pl) by (unfold pl; destruct (pe_retry p =? 0); reflexivity).
+        exact He.
+      * rewrite Hp, Hpl, Hrl. unfold proj. cbn [fst]. rewrite ?Hst.
+        replace (u_inflight (if pe_retry p =? 0 then _ else _)) with false
+          by (rewrite <- Hifl; unfold pl; destruct (pe_retry p =? 0); reflexivity).
+        reflexivity.
 Qed.
